@@ -52,7 +52,7 @@ PROPS = {
     },
     "C04": {
         "lean": ["Seccomp.Proofs.C04"],
-        "streams": [policy_stream("names", 600, 10000, corpus="policy"), policy_stream("long", 150, 3000, corpus="policy")],
+        "streams": [policy_stream("boundary", 600, 10000, corpus="policy"), policy_stream("names", 400, 6000, corpus="policy"), policy_stream("long", 100, 2000, corpus="policy")],
         "trusted": CBPF_TRUST,
         "assumptions": [],
     },
